@@ -378,7 +378,8 @@ pub fn table(t: &Table, env: Option<&Environment>, p: &Interpreter) -> MResult<V
   // Populate columns
   for row in rows {
     for (ix, el) in row.into_iter().enumerate() {
-      data[ix].push(el);
+      // a cell written as a variable holds that variable's value, not its cell
+      data[ix].push(match el { Value::MutableReference(_) => el.deep_clone(), el => el });
     }
   }
 
